@@ -167,8 +167,10 @@ def run(ctx):
             if name in ("__init__", "assembler_callback", "export", "step_callback"):
                 continue
             twobody.check_typing(rep, "C06.R7", f"{ci.rel}:{ci.qual}.{name}", ci.rel, fn)
-        twobody.check_polarity(rep, "C06.R8", ci, ["g_N_dot", "g_N_q", "g_N_dot_u", "g_N_ddot", "Wla_N_q", "n", "n_q1_q2"])
-        twobody.check_polarity(rep, "C06.R8", ci, ["__gamma_F", "__gamma_F_q", "gamma_F_u", "gamma_F_dot", "Wla_F_q"])
+        # helpers=...: the blocks n_q1 / n_q2 (t1_q1 / ...) come out of pair-returning helpers that already carry the sign of their body;
+        # occurrences reached through a helper form their own group, whose body-2 : body-1 ratio must be the same -1
+        twobody.check_polarity(rep, "C06.R8", ci, ["g_N_dot", "g_N_q", "g_N_dot_q", "g_N_dot_u", "g_N_ddot", "Wla_N_q", "n", "n_q1_q2"], helpers=ci.methods)
+        twobody.check_polarity(rep, "C06.R8", ci, ["__gamma_F", "__gamma_F_q", "gamma_F_u", "gamma_F_dot", "gamma_F_dot_q", "Wla_F_q"], helpers=ci.methods)
     # R6 K10
     for ci in classes:
         view = protocol.ClassView(ctx, ci)
@@ -279,4 +281,12 @@ NEUTRAL = [
     dict(id="c06-n1", canary=True, what="local alias for the lambda result", file=S2P,
          old="        J_S = self.J_P(t, q) - r_PS_tilde @ self.J_R(t, q)\n        return self.A.T @ self.t1t2(t) @ J_S",
          new="        J_P = self.J_P(t, q)\n        J_S = J_P - r_PS_tilde @ self.J_R(t, q)\n        return self.A.T @ self.t1t2(t) @ J_S"),
+]
+
+MUTANTS += [
+    dict(id="c06-r8-seed", canary=True, what="[seeded by sub-agent] Sphere2Sphere.g_N_dot_q 'implemented' with an extra minus in front of the (already signed) n_q1 block", file=S2S,
+         old='    def g_N_dot_q(self, t, q, u):\n        raise NotImplementedError\n', new='    def g_N_dot_q(self, t, q, u):\n        n = self.n(t, q)\n        n_q1, n_q2 = self.n_q1_q2(t, q)\n        v_C1C2 = self.v_C2(t, q, u) - self.v_C1(t, q, u)\n        g_N_dot_q = np.concatenate(\n            (\n                -v_C1C2 @ n_q1 - n @ self.v_C1_q1(t, q, u),\n                v_C1C2 @ n_q2 + n @ self.v_C2_q2(t, q, u),\n            )\n        ).reshape((self.nla_N, self._nq))\n        return g_N_dot_q\n', expect="C06.R8"),
+]
+NEUTRAL += [
+    dict(id="c06-n-r8", canary=True, what="Sphere2Sphere.g_N_dot_q implemented correctly", file=S2S, old='    def g_N_dot_q(self, t, q, u):\n        raise NotImplementedError\n', new='    def g_N_dot_q(self, t, q, u):\n        n = self.n(t, q)\n        n_q1, n_q2 = self.n_q1_q2(t, q)\n        v_C1C2 = self.v_C2(t, q, u) - self.v_C1(t, q, u)\n        g_N_dot_q = np.concatenate(\n            (\n                v_C1C2 @ n_q1 - n @ self.v_C1_q1(t, q, u),\n                v_C1C2 @ n_q2 + n @ self.v_C2_q2(t, q, u),\n            )\n        ).reshape((self.nla_N, self._nq))\n        return g_N_dot_q\n'),
 ]
